@@ -117,6 +117,24 @@ def exponent : List Char → Option (List Char)
     else none
   | [] => none
 
+/-- `fraction()`: what follows the dot of a decimal float literal — digits, optional exponent, optional suffix.
+Returns the consumed characters. -/
+def fraction (r1 : List Char) : List Char :=
+  let (fs, r2) := takeWhileC isDigit r1
+  let ex := (exponent r2).getD []
+  let r3 := r2.drop ex.length
+  fs ++ ex ++ floatSuffix r3
+
+/-- `dotStartsFloatTail()`: `r1` is the input after the dot of `N.` — an exponent with at least one digit
+(`1.e3`, `1.E-3`) or a type suffix that ends the token (`3.f`, `3.h`).  (After the `fix:` commit cd830ed.) -/
+def dotTail (g : Cfg) (r1 : List Char) : Bool :=
+  let a1 := peek r1
+  let a2 := peekNext r1
+  let a3 := peek (r1.drop 2)
+  if a1 == 'e' || a1 == 'E' then isDigit a2 || ((a2 == '+' || a2 == '-') && isDigit a3)
+  else if a1 == 'f' || a1 == 'h' then !g.isAlnum a2 && a2 != '_'
+  else false
+
 /-- `number()`: `first` is the digit already consumed; `cs` the input after it.
 Returns (kind, consumed after `first`). -/
 def number (g : Cfg) (first : Char) (cs : List Char) : Kind × List Char :=
@@ -126,12 +144,8 @@ def number (g : Cfg) (first : Char) (cs : List Char) : Kind × List Char :=
   else
     let (ds, r) := takeWhileC isDigit cs
     let nextAfterDot := peekNext r
-    if peek r == '.' && !r.isEmpty && !g.isAlpha nextAfterDot && nextAfterDot != '_' then
-      let r1 := r.drop 1
-      let (fs, r2) := takeWhileC isDigit r1
-      let ex := (exponent r2).getD []
-      let r3 := r2.drop ex.length
-      (.floatLit, ds ++ '.' :: fs ++ ex ++ floatSuffix r3)
+    if peek r == '.' && !r.isEmpty && ((!g.isAlpha nextAfterDot && nextAfterDot != '_') || dotTail g (r.drop 1)) then
+      (.floatLit, ds ++ '.' :: fraction (r.drop 1))
     else
       match exponent r with
       | some ex =>
@@ -177,7 +191,10 @@ def matchCont (cs : List Char) : List (List Char) → List Char
 
 /-- `scanToken()` on non-empty input `c :: cs`. -/
 def scanToken (g : Cfg) (c : Char) (cs : List Char) : Scan :=
-  if isSingleOp c then ⟨some (.op (String.singleton c)), [c], cs⟩
+  if c == '.' && isDigit (peek cs) && !cs.isEmpty then
+    -- `.5`, `.3e1f`: a decimal float literal may start with the dot (fix cd830ed)
+    ⟨some .floatLit, c :: fraction cs, cs.drop (fraction cs).length⟩
+  else if isSingleOp c then ⟨some (.op (String.singleton c)), [c], cs⟩
   else if isMultiOpStart c then
     let k := matchCont cs (opContinuations c)
     ⟨some (.op (String.ofList (c :: k))), c :: k, cs.drop k.length⟩
